@@ -19,7 +19,7 @@ VARIABLE l
 tvars == <<vars, l>>
 Ev == Log[l]
 
-HIni == /\ Ev.e = "Ini" /\ Ini(Ev.o, Ev.sys, 1, 1, 0, 0)
+HIni == /\ Ev.e = "Ini" /\ Ini(Ev.o, Ev.sys, 1, 1, 0, 0) /\ Ev.cacheclear
 HStart == /\ Ev.e = "EvolveStart" /\ Ev.paramsok
           /\ obj[Ev.o].inited /\ obj[Ev.o].sys = Ev.sys /\ drv.o = 0
           /\ obj' = [obj EXCEPT ![Ev.o].any = (Ev.num = 1)]                 \* silent SetAny: the switches are not hooked
